@@ -342,6 +342,49 @@ func init() {
 		}
 		fmt.Fprintf(&e.out, "def summaryResources : List (List Nat) := %s\n", c13BytesList(sum))
 
+		// handleCreate: the order of the h.<step>(ctx, req, obj) calls (the harness drives the first two steps directly)
+		var steps []string
+		if fd := e.funcDecl(md, "PodMutatingHandler", "handleCreate"); fd == nil || fd.Body == nil {
+			e.fail("handleCreate not found")
+		} else {
+			ast.Inspect(fd.Body, func(n ast.Node) bool {
+				if c, ok := n.(*ast.CallExpr); ok {
+					if sel, ok := c.Fun.(*ast.SelectorExpr); ok && len(c.Args) == 3 {
+						if id, ok := sel.X.(*ast.Ident); ok && fd.Recv != nil && len(fd.Recv.List[0].Names) == 1 && id.Name == fd.Recv.List[0].Names[0].Name {
+							steps = append(steps, leanStr(sel.Sel.Name))
+						}
+					}
+				}
+				return true
+			})
+		}
+		fmt.Fprintf(&e.out, "def handleCreateSteps : List String := [%s]\n", strings.Join(steps, ", "))
+		// doMutateByColocationProfile: the profile.Spec fields in the order their `if` blocks appear
+		var fields []string
+		if fd := e.funcDecl(md, "PodMutatingHandler", "doMutateByColocationProfile"); fd == nil || fd.Body == nil {
+			e.fail("doMutateByColocationProfile not found")
+		} else {
+			for _, st := range fd.Body.List {
+				ifs, ok := st.(*ast.IfStmt)
+				if !ok {
+					continue
+				}
+				found := ""
+				ast.Inspect(ifs.Cond, func(n ast.Node) bool {
+					if sel, ok := n.(*ast.SelectorExpr); ok && found == "" {
+						if inner, ok := sel.X.(*ast.SelectorExpr); ok && inner.Sel.Name == "Spec" {
+							found = sel.Sel.Name
+						}
+					}
+					return true
+				})
+				if found != "" {
+					fields = append(fields, leanStr(found))
+				}
+			}
+		}
+		fmt.Fprintf(&e.out, "def profileFieldOrder : List String := [%s]\n", strings.Join(fields, ", "))
+
 		// label / annotation keys, through the index expressions that read them
 		fmt.Fprintf(&e.out, "def labelQoS : List Nat := %s\n", c13Bytes(c13IndexKey(e, d, "", "GetQoSClassByAttrs", "labels")))
 		fmt.Fprintf(&e.out, "def labelPriorityClass : List Nat := %s\n", c13Bytes(c13IndexKey(e, d, "", "GetPodPriorityClassRaw", "Labels")))
